@@ -17,6 +17,7 @@
  */
 #include "vh.h"
 
+#include <errno.h>
 #include <pthread.h>
 #include <sched.h>
 #include <librfn/atomic.h> /* <stdatomic.h>, or librfn's own fallback macros when built with -D__STDC_NO_ATOMICS__ */
@@ -372,6 +373,137 @@ static void fibre_round(int senders, int per)
 	vh_distinct(vh_mix(vh_mix(0x53, (uint64_t)senders), passes));
 }
 
+/* ------------------------------------------------------- real asynchronous interrupts (engine E4) */
+/* Two POSIX interval timers deliver SIGUSR1 and SIGUSR2 at pseudo-random sub-millisecond intervals to the one
+ * thread that runs the scheduler; SIGUSR2 is not masked while SIGUSR1's handler runs, so the handlers nest.  Each
+ * handler posts at most one event (never spinning: a refused claim is retried at the next signal) and some wake-ups.
+ * Preemption is at true instruction granularity; the oracle is the same quiescence oracle as in the thread rounds. */
+#include <signal.h>
+#include <time.h>
+static timer_t sig_timer[2];
+static volatile int sig_k[2];
+static volatile int sig_done[2];
+static volatile uint64_t sig_count[2], sig_nested;
+static volatile int sig_depth;
+static uint32_t sig_lcg[2];
+
+static void sig_arm(int me)
+{
+	sig_lcg[me] = sig_lcg[me] * 1664525u + 1013904223u;
+	struct itimerspec its;
+	memset(&its, 0, sizeof(its));
+	its.it_value.tv_nsec = 15000 + (long)((sig_lcg[me] >> 12) % 250000); /* 15..265 us */
+	timer_settime(sig_timer[me], 0, &its, NULL);
+}
+static void on_signal(int sig)
+{
+	int me = sig == SIGUSR1 ? 0 : 1;
+	int saved_errno = errno;
+	sig_depth++;
+	if (sig_depth > 1)
+		sig_nested++;
+	sig_count[me]++;
+	int k = sig_k[me];
+	if (k < fb_per) {
+		fev_t *e = fibre_eventq_claim(&evH);
+		if (e) {
+			e->sender = (uint32_t)me;
+			e->seq = (uint32_t)k;
+			e->check = ~(e->sender * 65537u + e->seq);
+			(void)fibre_eventq_send(&evH, e);
+			sig_k[me] = k + 1;
+			if (k % 3 == 0) {
+				uint32_t v = __atomic_fetch_add(&workA, 1, __ATOMIC_RELAXED) + 1;
+				if (fibre_run_atomic(&fibA) && v > accA[me])
+					accA[me] = v;
+			}
+			if (k % 5 == 0) {
+				uint32_t v = __atomic_fetch_add(&workB, 1, __ATOMIC_RELAXED) + 1;
+				if (fibre_run_atomic(&fibB) && v > accB[me])
+					accB[me] = v;
+			}
+		}
+		sig_arm(me);
+	} else {
+		sig_done[me] = 1;
+	}
+	sig_depth--;
+	errno = saved_errno;
+}
+static void signal_round(int per)
+{
+	fibre_verif_reset();
+	fibre_eventq_init(&evH, body_H, evbuf, sizeof(evbuf), sizeof(evbuf[0]));
+	fibre_init(&fibA, body_A);
+	fibre_init(&fibB, body_B);
+	fb_senders = 2;
+	fb_per = per;
+	fb_got = 0;
+	memset(fb_next, 0, sizeof(fb_next));
+	memset(accA, 0, sizeof(accA));
+	memset(accB, 0, sizeof(accB));
+	seenA = seenB = 0;
+	atomic_store(&workA, 0);
+	atomic_store(&workB, 0);
+	vh_case_key("signals");
+	vh_case_budget(600);
+	vh_case_desc("two nested interval-timer signals posting %d events each against the main-context scheduler", per);
+	struct sigaction sa;
+	memset(&sa, 0, sizeof(sa));
+	sa.sa_handler = on_signal;
+	sigemptyset(&sa.sa_mask); /* the other signal is NOT masked: handlers nest */
+	sa.sa_flags = SA_RESTART;
+	sigaction(SIGUSR1, &sa, NULL);
+	sigaction(SIGUSR2, &sa, NULL);
+	for (int i = 0; i < 2; i++) {
+		struct sigevent sev;
+		memset(&sev, 0, sizeof(sev));
+		sev.sigev_notify = SIGEV_SIGNAL;
+		sev.sigev_signo = i ? SIGUSR2 : SIGUSR1;
+		timer_create(CLOCK_MONOTONIC, &sev, &sig_timer[i]);
+		sig_k[i] = 0;
+		sig_done[i] = 0;
+		sig_count[i] = 0;
+		sig_lcg[i] = (uint32_t)(vh_opt.seed * 977u + (uint32_t)i * 131071u + 7u);
+	}
+	sig_nested = 0;
+	sig_arm(0);
+	sig_arm(1);
+	int total = 2 * per;
+	uint32_t t = 0;
+	uint64_t passes = 0;
+	while ((fb_got < total || !sig_done[0] || !sig_done[1]) && vh_nviol == 0) {
+		fibre_scheduler_next(t++);
+		passes++;
+		if ((passes & 255) == 0)
+			fibre_run(&evH.fibre);
+		if (passes > 4000000000ull)
+			break;
+	}
+	for (int i = 0; i < 2; i++)
+		timer_delete(sig_timer[i]);
+	signal(SIGUSR1, SIG_IGN);
+	signal(SIGUSR2, SIG_IGN);
+	for (int i = 0; i < 12; i++)
+		fibre_scheduler_next(t++);
+	uint32_t needA = accA[0] > accA[1] ? accA[0] : accA[1], needB = accB[0] > accB[1] ? accB[0] : accB[1];
+	if (vh_nviol == 0 && fb_got != total)
+		vh_violation("fibre:event-lost", vh_cur_replay, "%d events were sent from signal handlers, %d received", total, fb_got);
+	if (vh_nviol == 0 && (seenA < needA || seenB < needB))
+		vh_violation("fibre:accepted-wakeup-never-observed", vh_cur_replay, "fibre A saw %u of %u, fibre B saw %u of %u accepted wake-ups", seenA, needA,
+			     seenB, needB);
+	vh_evaluations++;
+	VH_COUNT_N("signal_events_handed_over", (uint64_t)fb_got);
+	VH_COUNT_N("signals_delivered", sig_count[0] + sig_count[1]);
+	VH_COUNT_N("signals_nested_in_another_handler", sig_nested);
+	VH_COUNT_N("signal_scheduler_passes", passes);
+	VH_COUNT("signal_rounds");
+	vh_distinct(vh_mix(vh_mix(0x54, sig_count[0]), passes));
+	if (vh_want_sample())
+		vh_sample("signals: %d events each from SIGUSR1/SIGUSR2 handlers (%" PRIu64 " signals, %" PRIu64 " nested), %" PRIu64 " passes", per,
+			  (uint64_t)(sig_count[0] + sig_count[1]), (uint64_t)sig_nested, passes);
+}
+
 int main(int argc, char **argv)
 {
 	vh_init(argc, argv, "threads");
@@ -390,6 +522,8 @@ int main(int argc, char **argv)
 			static const int cfg[][2] = { { 1, 2 }, { 2, 3 }, { 3, 5 }, { 4, 8 }, { 4, 15 }, { 2, 2 } };
 			for (unsigned i = 0; i < 6 && vh_nviol == 0; i++)
 				mq_round(cfg[i][0], cfg[i][1], (vh_opt.thorough ? 60000 : 20000) / cfg[i][1]);
+		} else if (!strcmp(mode, "signal")) {
+			signal_round(vh_opt.thorough ? 20000 : 4000);
 		} else {
 			static const int ns[] = { 2, 4, 8 };
 			for (unsigned i = 0; i < 3 && vh_nviol == 0; i++)
